@@ -120,7 +120,11 @@ def facts_dir(config="main", repo=REPO):
         cmd = ["cargo", "+nightly", "check", "--offline"]
         for p in cfg["packages"]:
             cmd += ["-p", p]
-        cmd += ["--features", ",".join(cfg["features"])]
+        feats = cfg["features"]
+        if len(cfg["packages"]) == 1:
+            # with a single -p, `pkg/feat` is taken as a dependency feature: use bare names
+            feats = [f.split("/", 1)[1] if f.startswith(cfg["packages"][0] + "/") else f for f in feats]
+        cmd += ["--features", ",".join(feats)]
         env = dict(os.environ)
         env.update({
             "LD_LIBRARY_PATH": sysroot() + "/lib",
